@@ -5,6 +5,7 @@ package main
 import (
 	"fmt"
 	"go/ast"
+	"go/constant"
 	"go/parser"
 	"go/token"
 	"os"
@@ -683,6 +684,35 @@ func (c *Ctx) checkUnquoter(r *Report, g *grammarInfo) {
 		})
 	}
 	table, hasDefaultIdentity, ok := c.unquoteSwitchTable(callee)
+	if !ok {
+		// the escape table may have been extracted into a pure helper func(byte) byte: evaluate it for every byte
+		eachInstr(callee, func(in ssa.Instruction) {
+			call, isCall := in.(*ssa.Call)
+			if !isCall || ok {
+				return
+			}
+			h := call.Common().StaticCallee()
+			if h == nil || !c.inModule(h) || len(h.Params) != 1 || !isByteType(h.Params[0].Type()) || h.Signature.Results().Len() != 1 || !isByteType(h.Signature.Results().At(0).Type()) {
+				return
+			}
+			t := map[byte]byte{}
+			ident := true
+			ev := &Evaluator{}
+			for v := 0; v < 256; v++ {
+				rs, okv := ev.evalPure(h, []constant.Value{constant.MakeInt64(int64(v))}, 0)
+				if !okv || len(rs) != 1 {
+					return
+				}
+				o, _ := constant.Int64Val(rs[0])
+				if byte(o) != byte(v) {
+					t[byte(v)] = byte(o)
+				}
+			}
+			r.SawFunc(h)
+			r.Count("byte_values_evaluated", 256)
+			table, hasDefaultIdentity, ok = t, ident, true
+		})
+	}
 	if !ok {
 		r.Undecided(key, c.pos(callee.Pos()), "escape handling of the in-module unquoter is not a recognisable switch over the escaped character")
 		return
